@@ -566,7 +566,8 @@ spec fn set_action_post<'a>(old_b: TableBuilder<'a>, new_b: TableBuilder<'a>, r:
         Err(e) => {
             &&& old_b.actions@.contains_key(k) && old_b.actions@[k].1 != action && new_b.actions@ == old_b.actions@
             &&& e matches KikiErr::TableConflict(b)
-                && b.state_index == s && b.items == (*old_b.actions@[k].0, *item)
+                // the two items in either order: the statement of C11 is symmetric in them
+                && b.state_index == s && (b.items == (*old_b.actions@[k].0, *item) || b.items == (*item, *old_b.actions@[k].0))
                 && b.file == *old_b.context.file && b.machine == *old_b.context.machine
         },
     }
